@@ -386,3 +386,10 @@ mod test {
     assert!(not_found.is_none());
   }
 }
+
+#[cfg(feature = "verif-hooks")]
+pub mod verif_hooks {
+  pub fn extract_meta_var(src: &str, meta_char: char) -> Option<super::MetaVariable> {
+    super::extract_meta_var(src, meta_char)
+  }
+}
